@@ -116,7 +116,7 @@ theorem euler_yaw_only (y : Ang α) : euler y Ang.zero Ang.zero = rotZ y := by f
     about the newest Y -/
 theorem euler_intrinsic (y p r : Ang α) (v : Vec3 α) :
     (euler y p r).mulVec v = (rotZ y).mulVec ((rotX p).mulVec ((rotY r).mulVec v)) := by
-  rw [euler, Mat3.mulVec_mul, Mat3.mulVec_mul]
+  rw [euler_eq, Mat3.mulVec_mul, Mat3.mulVec_mul]
 
 /-- `fromEuler` of unit angles is a proper rotation -/
 theorem euler_isRot (y p r : Ang α) (hy : y.Unit) (hp : p.Unit) (hr : r.Unit) : (euler y p r).IsRot :=
